@@ -4,7 +4,7 @@ from .. import net
 
 ID = "C20"
 PROPS = ["theories/Props/C20.vo"]
-PINNED = ["C20_roundtrip", "C20_refuted_registration_outlives_wait",
+PINNED = ["C20_roundtrip", "C20_holds_outside", "C20_reuse_wakes", "C20_refuted_registration_outlives_wait",
           "C20_refuted_registration_outlives_wait_cross", "C20_refuted_one_token_per_descriptor",
           "C20_wake_hits", "C20_no_cross_wake", "C20_unregistered_direction_has_no_waiter"]
 CASES_MODULE = "Cases.C20"
@@ -403,8 +403,10 @@ LEVEL_TEXT = ("Unbounded theorems (all histories of waits and timed-out waits fo
               "suspended table (try_resume): C20_roundtrip (the token the OS hands back is the coroutine id, for every "
               "id), C20_holds_outside (outside the two recorded findings every readiness event resumes, on the event, "
               "exactly the coroutines waiting for that direction of that descriptor, and a direction the OS has no "
-              "interest for has no waiter, also after close and reuse of the number), C20_reuse_clean (a number closed "
-              "through the runtime and handed out again carries no record and no OS entry, whatever happened before), "
+              "interest for has no waiter, also after close and reuse of the number), C20_reuse_wakes (after ANY history, "
+              "once a number is closed through the runtime and handed out again, a new coroutine waiting for either "
+              "direction of the new socket has its own token and exactly its interest registered and is resumed by the "
+              "readiness event, alone), "
               "and the refutation witnesses of the recorded findings registration_outlives_wait (a registration and its "
               "token outlive the wait) and one_token_per_descriptor (two coroutines waiting for the two directions of "
               "one descriptor share one OS token). The model is tied to the real event loop by running the same "
